@@ -1,6 +1,7 @@
 package main
 
 import (
+	"sort"
 	"fmt"
 	"go/constant"
 	"go/token"
@@ -315,21 +316,20 @@ func checkC08(c *Ctx) {
 	r.Rule("C08.5", "RemoveOldRegistrations runs from a ticker loop started by main", 1)
 	if mainFn := c.fn("C08.5", "cmd/application", "", "main"); mainFn != nil {
 		found := false
-		for _, a := range mainFn.AnonFuncs {
+		gs := goStarted(mainFn)
+		var cands []*ssa.Function
+		cands = append(cands, mainFn.AnonFuncs...)
+		for fn := range gs {
+			if fn.Parent() == nil {
+				cands = append(cands, fn)
+			}
+		}
+		sort.Slice(cands, func(i, j int) bool { return cands[i].Pos() < cands[j].Pos() })
+		for _, a := range cands {
 			for _, call := range callsIn(a, shortIs("RemoveOldRegistrations")) {
 				found = true
 				inLoop, _ := reach(a, call.(ssa.Instruction), isInstr(call.(ssa.Instruction)), nil, nil)
-				started := false
-				eachInstr(mainFn, func(in ssa.Instruction) {
-					if g, ok := in.(*ssa.Go); ok {
-						if mc, ok := g.Call.Value.(*ssa.MakeClosure); ok && mc.Fn == ssa.Value(a) {
-							started = true
-						}
-						if g.Call.Value == ssa.Value(a) {
-							started = true
-						}
-					}
-				})
+				started := gs[a] != nil
 				period := ""
 				eachInstr(a, func(in ssa.Instruction) {
 					if tc, ok := in.(*ssa.Call); ok && calleeName(&tc.Call) == "time.NewTicker" {
@@ -832,4 +832,30 @@ func checkSweepAlwaysRuns(c *Ctx, rule string) {
 	inLoop := reachGameFrom(f, loopHead.Succs[0], rm.call, func(bl *ssa.BasicBlock) int { return gameAll })
 	r.Check(entered && inLoop, rule, "RemoveOldRegistrations: every selected record is removed", rm.call.Pos(), fnName(f), "the range loop over the selection is entered on every path and calls removeRegistration on every iteration",
 		"a selected (expired) record can be skipped by the sweep: it stays tracked and keeps matching connections past its lifetime")
+}
+
+// goStarted returns the functions that f starts with a go statement - closures and named functions of its package -
+// with the go instruction that starts each.
+func goStarted(f *ssa.Function) map[*ssa.Function]*ssa.Go {
+	out := map[*ssa.Function]*ssa.Go{}
+	eachInstr(f, func(in ssa.Instruction) {
+		g, ok := in.(*ssa.Go)
+		if !ok {
+			return
+		}
+		if mc, ok := g.Call.Value.(*ssa.MakeClosure); ok {
+			if fn, ok := mc.Fn.(*ssa.Function); ok {
+				out[fn] = g
+			}
+			return
+		}
+		if fn, ok := g.Call.Value.(*ssa.Function); ok && fn.Blocks != nil {
+			out[fn] = g
+			return
+		}
+		if fn := g.Call.StaticCallee(); fn != nil && fn.Blocks != nil && fn.Package() == f.Package() {
+			out[fn] = g
+		}
+	})
+	return out
 }
